@@ -9,6 +9,7 @@ import (
 	"strconv"
 	"strings"
 	"testing"
+	"time"
 	"unicode/utf16"
 
 	dtpb "github.com/google/fhir/go/proto/google/fhir/proto/r4/core/datatypes_go_proto"
@@ -841,6 +842,215 @@ func c15RunElem(ctx *Ctx, c c15ElemCase) {
 	}
 }
 
+
+// --- temporal elements → System values ----------------------------------------------------
+
+// A FHIR date / dateTime / instant / time element is (microseconds, time zone, precision).
+// Cases draw the three independently: instants from a boundary set (the epoch itself, ±1 µs,
+// ±1 s, day boundaries, years 1 and 9999) and at random over the whole range, every precision
+// of the kind, any offset.  For date elements the instant is midnight of the day in the
+// element's zone or - as the repository's own fhir.Date(t) helper stores it - any instant of
+// that day.  Oracle: system.From gives a value of the kind whose components (read from its
+// String()) are the calendar fields of the instant in the element's zone down to the
+// precision, with the element's offset where a time is present; it equals (library `=`) the
+// literal spelling those components, and toString()/toDateTime()/toDate() succeed on it.
+
+type c15TempCase struct {
+	Kind string `json:"kind"` // date dateTime instant time
+	Us   int64  `json:"us"`
+	Prec int    `json:"prec"` // 0 year 1 month 2 day 5 second 6 millisecond 7 microsecond
+	Off  string `json:"off"`  // "Z", "+05:30", "UTC" …
+}
+
+var c15BoundaryUs = []int64{0, 1, -1, 999, 1000, -1000, 999999, 1000000, -1000000, 86400000000, -86400000000, 86399999999, 951782400000000, 1582934400000000,
+	-62135596800000000, 253402300799000000, 253402214400000000, 4102444800000000, -2208988800000000}
+
+func c15GenTemp(s Src) c15TempCase {
+	c := c15TempCase{Kind: pickOne(s, []string{"date", "dateTime", "dateTime", "instant", "instant", "time"})}
+	if s.Prob(45) {
+		c.Us = pickOne(s, c15BoundaryUs)
+	} else {
+		// 0001-01-02 … 9999-12-30, whole seconds plus a drawn fraction
+		c.Us = (-62135510400+int64(s.Intn(1<<30))*293+int64(s.Intn(293)))*1000000 + int64(pickOne(s, []int{0, 0, 500000, 250000, 123000, 123600, 999999, 1}))
+	}
+	c.Off = pickOne(s, []string{"Z", "Z", "UTC", "+00:00", genOffset(s), genOffset(s), genOffset(s)})
+	switch c.Kind {
+	case "date":
+		c.Prec = s.Intn(3)
+	case "dateTime":
+		c.Prec = pickOne(s, []int{0, 1, 2, 5, 5, 6, 6, 7})
+	case "instant":
+		c.Prec = pickOne(s, []int{5, 6, 7})
+	case "time":
+		c.Prec = pickOne(s, []int{5, 6, 7})
+		c.Us = ((c.Us % 86400000000) + 86400000000) % 86400000000
+		c.Off = ""
+	}
+	// nothing below the element's precision (as google/fhir's parsers build elements) - except
+	// for day-precision dates, which the repository's own fhir.Date(t) stores at any instant
+	// of the day
+	floor := func(us, unit int64) int64 { return us - ((us%unit)+unit)%unit }
+	loc, _, _ := c15TempLoc(c.Off)
+	g := time.UnixMicro(c.Us).In(loc)
+	switch {
+	case c.Prec == 5:
+		c.Us = floor(c.Us, 1000000)
+	case c.Prec == 6:
+		c.Us = floor(c.Us, 1000)
+	case c.Prec == 0:
+		c.Us = time.Date(g.Year(), 1, 1, 0, 0, 0, 0, loc).UnixMicro()
+	case c.Prec == 1:
+		c.Us = time.Date(g.Year(), g.Month(), 1, 0, 0, 0, 0, loc).UnixMicro()
+	case c.Prec == 2 && (c.Kind == "dateTime" || s.Prob(65)):
+		c.Us = time.Date(g.Year(), g.Month(), g.Day(), 0, 0, 0, 0, loc).UnixMicro()
+	}
+	return c
+}
+
+func c15TempLoc(off string) (*time.Location, int, bool) {
+	switch off {
+	case "Z", "UTC", "+00:00", "":
+		return time.UTC, 0, true
+	}
+	var t temporal
+	if err := parseTemporalOffset(&t, off); err != nil {
+		return nil, 0, false
+	}
+	return time.FixedZone(off, t.off*60), t.off, true
+}
+
+func c15RunTemp(ctx *Ctx, c c15TempCase) {
+	loc, offMin, ok := c15TempLoc(c.Off)
+	if !ok {
+		ctx.Fail("harness: bad offset", c.Off)
+		return
+	}
+	g := time.UnixMicro(c.Us).In(loc)
+	if c.Kind != "time" && (g.Year() < 1 || g.Year() > 9999) {
+		ctx.Count("temporal_element_outside_years_1_9999")
+		return
+	}
+	var el fhir.Base
+	sysKind := "DateTime"
+	switch c.Kind {
+	case "date":
+		el, sysKind = &dtpb.Date{ValueUs: c.Us, Timezone: c.Off, Precision: []dtpb.Date_Precision{dtpb.Date_YEAR, dtpb.Date_MONTH, dtpb.Date_DAY}[c.Prec]}, "Date"
+	case "dateTime":
+		p := map[int]dtpb.DateTime_Precision{0: dtpb.DateTime_YEAR, 1: dtpb.DateTime_MONTH, 2: dtpb.DateTime_DAY, 5: dtpb.DateTime_SECOND, 6: dtpb.DateTime_MILLISECOND, 7: dtpb.DateTime_MICROSECOND}[c.Prec]
+		el = &dtpb.DateTime{ValueUs: c.Us, Timezone: c.Off, Precision: p}
+	case "instant":
+		p := map[int]dtpb.Instant_Precision{5: dtpb.Instant_SECOND, 6: dtpb.Instant_MILLISECOND, 7: dtpb.Instant_MICROSECOND}[c.Prec]
+		el = &dtpb.Instant{ValueUs: c.Us, Timezone: c.Off, Precision: p}
+	case "time":
+		p := map[int]dtpb.Time_Precision{5: dtpb.Time_SECOND, 6: dtpb.Time_MILLISECOND, 7: dtpb.Time_MICROSECOND}[c.Prec]
+		el, sysKind = &dtpb.Time{ValueUs: c.Us, Precision: p}, "Time"
+	}
+	boundary := false
+	for _, b := range c15BoundaryUs {
+		boundary = boundary || b == c.Us
+	}
+	ctx.Eval(fmt.Sprint(c), true, "family:temporal-element-to-system", "elem:"+c.Kind, fmt.Sprintf("prec:%d", c.Prec), fmt.Sprintf("boundary-instant:%v", boundary), fmt.Sprintf("epoch:%v", c.Us == 0))
+	var got system.Any
+	var err error
+	gd := guard(func() { got, err = system.From(el) })
+	desc := fmt.Sprintf("system.From(%s{value_us:%d timezone:%q precision:%d}) → %v, %v", c.Kind, c.Us, c.Off, c.Prec, got, err)
+	sig := "temporal element→system " + c.Kind + ": "
+	if gd.Panic != "" {
+		ctx.Fail(sig+"panic "+gd.Panic, desc)
+		return
+	}
+	if err != nil {
+		ctx.Fail(sig+"a valid element is refused", desc)
+		return
+	}
+	if c13GoType15(got) != sysKind {
+		ctx.Fail(sig+"result is not a "+sysKind, desc)
+		return
+	}
+	isTime := c.Kind == "time"
+	t, perr := parseAnyTemporal(fmt.Sprint(got), isTime)
+	if perr != nil {
+		ctx.Fail(sig+"unparsable String()", desc)
+		return
+	}
+	wantPrec := c.Prec
+	if wantPrec > 6 {
+		wantPrec = 6
+	}
+	gotPrec := t.prec
+	ms := g.Nanosecond() / 1000000
+	same := true
+	if !isTime {
+		same = t.Y == g.Year() && (wantPrec < 1 || t.M == int(g.Month())) && (wantPrec < 2 || t.D == g.Day())
+	}
+	if wantPrec >= 5 {
+		same = same && t.h == g.Hour() && t.m == g.Minute() && t.s == g.Second()
+		// a fraction may be printed or not at second precision; at (milli/micro)second precision
+		// the milliseconds are part of the value
+		if wantPrec == 6 && (ms != 0 || t.prec == 6) {
+			same = same && t.nanos()/1000000 == ms
+		}
+		if !isTime {
+			same = same && t.hasOff && t.off == offMin
+		}
+	}
+	if gotPrec >= 5 && wantPrec >= 5 {
+		gotPrec = wantPrec // seconds and milliseconds are one precision
+	}
+	if gotPrec != wantPrec {
+		ctx.Fail(sig+"precision changed", desc+fmt.Sprintf(" (precision %d, want %d)", gotPrec, wantPrec))
+		return
+	}
+	if !same {
+		ctx.Fail(sig+"value or offset changed", desc+" (calendar fields of the instant in the element's zone: "+g.Format("2006-01-02T15:04:05.000Z07:00")+")")
+		return
+	}
+	// the value equals the literal spelling it, and converts
+	lit := ""
+	switch {
+	case isTime:
+		lit = "@T" + g.Format("15:04:05")
+		if wantPrec == 6 {
+			lit += fmt.Sprintf(".%03d", ms)
+		}
+	case wantPrec == 0:
+		lit = "@" + g.Format("2006")
+	case wantPrec == 1:
+		lit = "@" + g.Format("2006-01")
+	case wantPrec == 2:
+		lit = "@" + g.Format("2006-01-02")
+	default:
+		lit = "@" + g.Format("2006-01-02T15:04:05")
+		if wantPrec == 6 {
+			lit += fmt.Sprintf(".%03d", ms)
+		}
+		lit += g.Format("Z07:00")
+	}
+	if sysKind == "DateTime" && wantPrec <= 2 {
+		lit += "T"
+	}
+	if c.Prec == 7 && g.Nanosecond()%1000000 != 0 {
+		ctx.Count("temporal_element_with_digits_below_its_precision(equality not asserted)")
+		return
+	}
+	vars := map[string]any{"x": el}
+	for _, src := range []string{"%x = " + lit, lit + " = %x", "%x.toString().exists()", "(%x != " + lit + ").not()"} {
+		out := evalWith(src, nil, vars)
+		if out.failed() || renderColl(out.Coll) != "[Boolean:true]" {
+			ctx.Fail(sig+"the element does not behave as the value it holds: "+strings.ReplaceAll(strings.ReplaceAll(src, lit, "<literal of the value>"), "  ", " "), fmt.Sprintf("%s with %%x = %s{value_us:%d timezone:%q precision:%d} → %s", src, c.Kind, c.Us, c.Off, c.Prec, out))
+			return
+		}
+	}
+	conv := map[string]string{"Date": "toDate()", "DateTime": "toDateTime()", "Time": "toTime()"}[sysKind]
+	for _, src := range []string{"%x." + conv + " = " + lit, "%x.toString()." + conv + " = %x"} {
+		out := evalWith(src, nil, vars)
+		if out.failed() || renderColl(out.Coll) != "[Boolean:true]" {
+			ctx.Fail(sig+"conversion of the element fails or changes the value: "+strings.ReplaceAll(src, lit, "<literal of the value>"), fmt.Sprintf("%s with %%x = %s{value_us:%d timezone:%q precision:%d} → %s", src, c.Kind, c.Us, c.Off, c.Prec, out))
+			return
+		}
+	}
+}
+
 func TestC15(t *testing.T) {
 	r := newRec("C15",
 		"five round-trip families: (string-escapes) rapid strings of 0..10 items over an alphabet with every escape target, quotes, backslash, non-ASCII/BMP/astral characters, rendered with a harness-side escaper that randomly picks the raw, simple-escape or \\uXXXX spelling; (literals) enumerated and rapid Date/DateTime/Time texts over precision × fraction digits 0..6 × offset forms, Integer/Decimal texts with leading/trailing zeros up to 30 digits, quantities with every calendar keyword and UCUM units: the literal evaluates to the denoted value, its String() re-parses to an equal value of the same precision/offset and `x = parse(x.String())` is true; (system-proto) every temporal/numeric/quantity pool value through ToProto*/…FromProto/From; (element-to-system) generated integer/unsignedInt/positiveInt/decimal elements around the int32 and uint32 limits through system.From: representable values convert to the same number, others are refused; (fhir-helpers) rapid FHIR date/dateTime/instant/time texts through fhir.Parse* and fhirconv.*ToString both ways and against the google/fhir JSON rendering in a carrier resource; (narrowing) all 11×11 instantiations of narrow.ToInteger with every 8/16-bit source value and ±2 around every power of two and type limit for wider sources, and fhirconv.ToInteger for boundary FHIR integers.  non-trivial = the representation is not the naive one (an escape, a fraction, an offset, sub-day precision, > 15 digits, a quantity) or From ≠ To; distinct = FNV-64 of the case",
@@ -851,6 +1061,7 @@ func TestC15(t *testing.T) {
 		Stage[c15LitCase]{Name: "literals", Gen: c15GenLit, Run: c15RunLit, N: pick(18000, 150000)},
 		Stage[c15ProtoCase]{Name: "system-proto", Enum: c15EnumProto, Run: c15RunProto},
 		Stage[c15ElemCase]{Name: "element-to-system", Gen: c15GenElem, Run: c15RunElem, N: pick(4000, 100000)},
+		Stage[c15TempCase]{Name: "temporal-element-to-system", Gen: c15GenTemp, Run: c15RunTemp, N: pick(12000, 200000)},
 		Stage[c15HelperCase]{Name: "fhir-helpers", Gen: c15GenHelper, Run: c15RunHelper, N: pick(18000, 150000)},
 		Stage[c15NarrowCase]{Name: "narrowing", Enum: c15EnumNarrow, Run: c15RunNarrow},
 		Stage[c15FhirIntCase]{Name: "fhirconv-integer", Enum: c15EnumFhirInt, Run: c15RunFhirInt},
